@@ -22,4 +22,6 @@ package min
 //@   ensures @C03: old(len(bufStr(data))) >= 32 && !(tag in validRegs(regManager, originalDst)) ==> result2 == transports.ErrNotTransport
 //@   ensures @C04: result2 == nil ==> bufStr(data) == old(bufStr(data))[32:]
 //@   ensures @C11: true
+// C03: the connection is not touched (no write, close, read, deadline change): the frame is the buffer only
+//@   assigns bufStr(data), obj(data)
 //@   checks safety
